@@ -723,18 +723,21 @@ package trzsz
 //@   ensures tbWF(t.buffer)
 //@   ensures [C08] r0 == nil && old(tgtFile.Size) > 0 && result_of("fileWriter.getFile", 0, 0) != nil ==> \
 //@       fsize[result_of("fileWriter.getFile", 1, 0)] == fpos[result_of("fileWriter.getFile", 1, 0)]
+//@   # agreed: the step of the last acknowledgement sent with Match=true (history the code keeps only implicitly)
+//@   ghostvar agreed int64 = 0
+//@   after trzszTransfer.sendHashAck set agreed = ite(hashAck.Match, hashAck.Step, agreed)
 //@   loop 1
 //@     invariant tbWF(t.buffer)
-//@     invariant [C08] 0 <= matchStep
+//@     invariant [C08] 0 <= matchStep && matchStep == agreed
 //@     invariant [C08] old(fpos)[file] == 0 ==> matchStep <= wlen[hasher] && fpos[file] == wlen[hasher] && \
 //@         hashedPrefix(hasher, file, wlen[hasher]) && (match ==> wlen[hasher] == matchStep)
 //@   before trzszTransfer.sendHashAck assert [C08] hashAck.Step == hash.Step
 //@   before trzszTransfer.sendHashAck assert [C08] hashAck.Match ==> hashAck.Step == matchStep
 //@   before trzszTransfer.sendHashAck assert [C08] hashAck.Match ==> hash.Hash == result_of("fmt.Sprintf", 0, 0)
 //@   before trzszTransfer.sendHashAck assert [C08] old(fpos)[file] == 0 && hashAck.Match ==> hashedPrefix(hasher, file, matchStep)
-//@   before os.File.Seek assert [C08] p0 == matchStep && p1 == 0
+//@   before os.File.Seek assert [C08] p0 == agreed && p1 == 0
 //@   before os.File.Seek assert [C08] old(fpos)[file] == 0 ==> matchStep <= wlen[hasher] && hashedPrefix(hasher, file, wlen[hasher])
-//@   before os.File.Truncate assert [C08] p0 == matchStep && fpos[file] == matchStep
+//@   before os.File.Truncate assert [C08] p0 == agreed && fpos[file] == agreed
 //@ end
 
 //@ # Sending side: the offset the source is positioned at plus the number of bytes announced as still
@@ -767,9 +770,11 @@ package trzsz
 //@ # matching (0 if none) and never exceeds the common size.
 //@ func trzszTransfer.pipelineRecvHashAck$1
 //@   requires t.buffer != nil && tbWF(t.buffer)
+//@   ghostvar agreed int64 = 0
+//@   after trzszTransfer.recvHashAck set agreed = ite(r1 == nil && r0.Match, r0.Step, agreed)
 //@   loop 1
 //@     invariant tbWF(t.buffer)
-//@     invariant [C08] matchStep < size || matchStep == 0
+//@     invariant [C08] (matchStep < size || matchStep == 0) && matchStep == agreed
 //@ end
 
 // ===========================================================================
